@@ -14,7 +14,8 @@ THEOREMS_BY_PROP = {
     "C06": ["DepLogic.C06.empty_roundtrip", "DepLogic.C06.any_roundtrip", "DepLogic.C06.range_roundtrip_plain_partial",
             "DepLogic.C06.postrelease_counterexample", "DepLogic.C06.range_roundtrip", "DepLogic.C06.union_roundtrip",
             "DepLogic.C06.alts_roundtrip", "DepLogic.C06.roundtrips", "DepLogic.compat_render", "DepLogic.wild_render",
-            "DepLogic.Spec.canon_unique"],
+            "DepLogic.Spec.canon_unique", "DepLogic.C06.reach_roundtrips", "DepLogic.C06.nice_roundtrips",
+            "DepLogic.Spec.and_textInv", "DepLogic.Spec.or_textInv", "DepLogic.Spec.fromClause_textInv"],
     "C04": ["DepLogic.C04.leaf_exact", "DepLogic.C04.leaf_exact_plain", "DepLogic.C04.tree_exact",
             "DepLogic.VOrd.wild_mem", "DepLogic.VOrd.compat_mem", "DepLogic.VOrd.lt_iff", "DepLogic.C01.and_exact",
             "DepLogic.C01.or_exact", "DepLogic.C01.invert_exact"],
